@@ -33,20 +33,20 @@ REFINED = ["add_one_in_place", "sub_one_in_place", "add_word_in_place", "sub_wor
            "math::max_exp_in_word (k >= 1, base^k fits a word)", "pow binary loop (pow_word_base/pow_dword_base/pow_large_base)",
            "pow_word_base shortcuts (0,1,2,2^k) and word lifting", "TypedReprRef::pow shortcuts 0/1/2",
            "UBig::pow factor-2 removal", "IBig::pow sign rule",
-           "pow_word_base/pow_dword_base with real buffers: capacity assertions, scratch allocation, 'never resize', "
-           "length bounds exp/wexp+1 and 2*exp",
+           "pow_word_base/pow_dword_base with real buffers (what the driver runs): capacity assertions, scratch "
+           "allocation, 'never resize', length bounds exp/wexp+1 and 2*exp; TypedReprRef::pow / UBig::pow / IBig::pow end to end",
            "composition: Toom-3's div_by_word_in_place(t1,6) / shr_in_place(t2,1) are exactly C02's mirrored kernels with "
            "remainder 0; UBig::pow/IBig::pow run through C09's mirrored trailing_zeros / >> / << (what the driver executes)"]
-FRONTIER = ["TRepr.pow executes pow_word_base/pow_dword_base on values; the word-list version with capacity and scratch "
-            "memory checks (powWordBaseBuf/powDwordBaseBuf) is proved panic-free, within the stated length bounds and to yield "
-            "the same Repr, but is not what the driver runs",
-            "Buffer MAX_CAPACITY clamping / allocation panics (C17)"]
+FRONTIER = ["Buffer MAX_CAPACITY clamping / allocation panics (C17) and the checked_add/checked_mul guards on huge exponents "
+            "(C16); sqr::MAX_LEN_SIMPLE = 30 is a model constant, not regenerated from source"]
 RULE = ("operand sizes drawn from the size classes {0,1,2,3,4,5, thr-1,thr,thr+1 for thr in 24,32,192, 385, 400, 1025, 2049...} x "
         "bit patterns {10..0, 1..1, 2^k, 2^k+-1, sparse, low words zero, random} x signs x "
         "{add,sub,mul,sqr,cubic,pow} x operand kinds (UBig, IBig, mixed); plus a deterministic block of carry/borrow chains "
         "that grow/shrink the word count across the 1/2/3/4-word boundaries for every sign combination and operand order; "
         "a block of products at (24|25) x (24|25|100|400), (192|193) x (192|193), 1024/1025 x 3/24/25 words (all-ones, random, "
-        "patterned) with the equal-operand squaring shortcut; pow: bases {0,1,2,2^k,3,10,B-1,B,B+1,2-word,3-word, bases "
+        "patterned) with the equal-operand squaring shortcut; a block of operands built from runs of all-ones words "
+        "(a = (B^n-1) + B^n(B^n-B^lo), b = B^n-B^j for n around every threshold) that drive the carry-propagation "
+        "windows of Karatsuba / Toom-3 / chunk splitting to all-ones; pow: bases {0,1,2,2^k,3,10,B-1,B,B+1,2-word,3-word, bases "
         "with a factor 2^s} x exponents {0..5, around wexp and 2*wexp of max_exp_in_word, powers of two +-1, up to 200 "
         "(thorough: 1000)} bounded by result size (quick 2e5 bits, thorough 3e6 bits); every case runs all ownership/"
         "assign call forms in the harness. Non-trivial := at least one operand has >= 3 words; distinct := distinct "
@@ -233,12 +233,92 @@ def pow_cases(rng, tier):
             yield Case("u.pow", [hx(b), dec(e)])
             yield Case("i.pow", [hx(-b if rng.random() < 0.6 else b), dec(e)])
 
+
+def ones_run_cases(rng, tier):
+    """operands made of runs of all-ones words at the chunk / half / third boundaries of the recursive
+    kernels: a = (B^n - 1) + B^n * (B^n - B^lo), b = B^n - B^j.  These drive the carry-propagation windows of
+    Karatsuba (carry_c0 at 2*mid, carry_c1 at 3*mid), Toom-3 (carry_c0..c3) and of the chunk splitting
+    (carry at c[n]) to all-ones / all-zero, so that the rarely non-zero carries out of those windows occur
+    (found by mutation testing: dropping one of them survived random and single-pattern operands)."""
+    B = 1 << 64
+    ns = [25, 26, 31, 48, 49, 193, 194, 200] if tier == "quick" else \
+         [25, 26, 27, 31, 33, 48, 49, 50, 97, 100, 191, 192, 193, 194, 195, 200, 256, 385, 577, 600]
+    per = 7 if tier == "quick" else 24
+    for n in ns:
+        full = (1 << (64 * n)) - 1
+        los = sorted(set([1, 2, n // 3 - 1, n // 3, n // 2, n - 1] + [rng.randrange(0, n) for _ in range(per)]))
+        for lo in los:
+            lo = max(0, min(n, lo))
+            a2 = (1 << (64 * n)) - (1 << (64 * lo))
+            j = rng.choice([0, 0, 0, rng.randrange(0, n)])
+            b = (1 << (64 * n)) - (1 << (64 * j))
+            a1 = rng.choice([full, full, (1 << (64 * n)) - (1 << (64 * rng.randrange(0, n))), 1])
+            a = a1 + (a2 << (64 * n))
+            yield Case("u.mul", [hx(a), hx(b)])
+            if rng.random() < 0.3:
+                yield Case("i.mul", [hx(-a), hx(b)])
+            if rng.random() < 0.25:
+                # three chunks, and the mirrored operand order
+                a3 = a + (((1 << (64 * n)) - (1 << (64 * rng.randrange(0, n)))) << (128 * n))
+                yield Case("u.mul", [hx(b), hx(a3)])
+        # squares of run-structured operands (same windows through sqr -> add_signed_mul_same_len)
+        yield Case("u.sqr", [hx((1 << (64 * n)) - (1 << (64 * rng.randrange(0, n))))])
+
+
+def usub_boundary_pairs(rng, tier):
+    """(a, b) pairs on BOTH sides of the UBig-subtraction panic (a < b) for every size-class pair:
+    inline/inline, inline/heap, heap/inline, heap/heap of the same length (3, 4, 25, 200 words: differing in
+    the top word, in the lowest word only, with all middle words equal, equal operands) and of different
+    lengths; and valid subtractions whose borrow runs through all words / shrinks the result"""
+    B = 1 << 64
+    for n in ([3, 4, 25, 200] if tier == "quick" else [3, 4, 5, 24, 25, 26, 100, 200, 385]):
+        P = 1 << (64 * (n - 1))
+        for rep in range(2 if tier == "quick" else 6):
+            top = rng.randrange(2, B - 2)
+            mid = rng.choice([0, P // B * 0 + ((P - 1) & ~(B - 1)), rng.getrandbits(64 * (n - 1)) & ~(B - 1)])
+            lo = rng.randrange(1, B - 2)
+            a = top * P + mid + lo
+            yield a, a + P                      # a < b, differ in the top word only
+            yield a, a + 1                      # a < b, differ in the lowest word only
+            yield a, a                          # equal
+            yield a + 1, a                      # a > b by one
+            yield top * P, top * P + 1          # all middle words zero
+            yield top * P + (P - 1) - 1, top * P + (P - 1)      # all lower words ones
+            yield a, (top + 1) * P              # a < b, b has zero low words
+            # valid, borrow through every word
+            yield top * P, (top - 1) * P + 1
+            yield top * P, (top - 1) * P + (P - 1)              # result 1: shrinks to one word
+            yield top * P, 1
+            yield top * P + 5, top * P + 5 - 1
+            # different lengths
+            yield a % P, a                      # shorter - longer: panic
+            yield a, a % P                      # longer - shorter
+            yield P, P - 1                      # 1 0..0 - ff..f = 1
+            yield P - 1, P                      # panic by one
+    # inline / inline and inline / heap
+    small = [0, 1, 2, B - 1, B, B + 1, B * B - 1]
+    for x in small:
+        for y in small:
+            yield x, y
+        yield x, B * B
+        yield B * B, x
+        yield x, B * B + x
+        yield B * B + x, x
+
+
+def usub_boundary_cases(rng, tier):
+    for a, b in usub_boundary_pairs(rng, tier):
+        yield Case("u.sub", [hx(a), hx(b)])
+
+
 _generate_base = generate
 
 def generate(rng, tier):
     yield from _generate_base(rng, tier)
     yield from boundary_cases(rng, tier)
     yield from mul_threshold_cases(rng, tier)
+    yield from ones_run_cases(rng, tier)
+    yield from usub_boundary_cases(rng, tier)
     yield from mul_chunk_remainder_cases(rng, tier)
     yield from pow_cases(rng, tier)
 
